@@ -104,6 +104,10 @@ SPECS = [
     (F_GEO, "quad_area", "g_quad_area", [("A", "V"), ("B", "V"), ("C", "V"), ("D", "V")], "S", {}),
     (F_GEO, "aspect_ratio", "g_aspect_ratio", [("A", "V"), ("B", "V"), ("C", "V")], R("S"), {}),
     (F_GEO, "distance_to_segment2D", "g_distance_to_segment2D", [("P", "V"), ("A", "V"), ("B", "V")], R("S"), {}),
+    (F_VEC, "Vec.zeros", "vec_zeros", [("n", "N")], "V", {"skip_self": True}),
+    (F_VEC, "Vec.X", "vec_X", [], "V", {"skip_self": True}),
+    (F_VEC, "Vec.Y", "vec_Y", [], "V", {"skip_self": True}),
+    (F_VEC, "Vec.Z", "vec_Z", [], "V", {"skip_self": True}),
     (F_VEC, "Vec.normalize", "vec_normalize", [("self", "V"), ("which", "K")], "V", {"fall_self": True}),
     (F_VEC, "Vec.outer", "vec_outer", [("self", "V"), ("other", "V")], "PTS", {}),
     (F_MATH, "solve_quadratic", "m_solve_quadratic", [("A", "S"), ("B", "S"), ("C", "S")], "V", {}),
@@ -508,7 +512,7 @@ class FnCompiler:
                     return Val("true" if ty == "S" else "false", "B", extra=("static", ty == "S"))
                 return Val("false", "B", extra=("static", False))     # complex arguments are outside the model
             self.fail(e, "unsupported isinstance")
-        if d == "Vec":
+        if d == "Vec" or (d == "cls" and self.rel == F_VEC):
             if len(args) == 1 and not kw:
                 a = A(0)
                 if a.ty in ("V", R("V")):
@@ -1022,7 +1026,7 @@ def roots_def(src, tree):
 
 
 # ====================================================================== effects
-ARRAY_VIEWS = {"Vec", "np.asarray", "np.asanyarray", "np.ravel", "np.atleast_1d"}
+ARRAY_VIEWS = {"Vec", "cls", "np.asarray", "np.asanyarray", "np.ravel", "np.atleast_1d"}
 # EXPLICIT whitelist of callables that neither write into an argument nor touch numpy's error register.
 # A call of anything else that is not a function of the table is a TranslationError (the analysis is fail-closed).
 PURE_CALLS = {"np.array", "np.full", "np.zeros", "np.ones", "np.copy", "np.maximum", "np.minimum", "np.min", "np.max",
@@ -1118,12 +1122,14 @@ class Effects:
                 if cp and not (isinstance(cp[0], ast.Constant) and cp[0].value is True):
                     return allr
                 return set()
-            if d in FRESH_CALLS or d == "Vec":
+            if d in FRESH_CALLS or d in ("Vec", "cls"):
                 return set()
             if isinstance(e.func, ast.Attribute) and d not in self.names and e.func.attr in VIEW_METHODS:
                 return self.root(e.func.value)
             if isinstance(e.func, ast.Attribute) and d not in self.names and e.func.attr in PURE_METHODS:
                 return set()
+            if d in self.names and self.names[d].endswith(".__init__"):
+                return set()        # a new object; that its fields are fresh copies is the constructor's own obligation (EStore [])
             # a function of the table (or an unknown one): its result may alias any of its arguments
             if isinstance(e.func, ast.Attribute) and d not in self.names:
                 allr |= self.root(e.func.value)
@@ -1230,6 +1236,8 @@ class Effects:
         if isinstance(s, (ast.Expr, ast.Return)):
             if s.value is not None:
                 self.calls_in(s.value, evs)
+                if isinstance(s, ast.Return) and not isinstance(s.value, ast.Constant):
+                    evs.append(("ERet", self.root(s.value)))
             return evs
         if isinstance(s, ast.Assign):
             self.calls_in(s.value, evs)
@@ -1332,6 +1340,8 @@ def ev_term(ev):
     k = ev[0]
     if k == "EMut":
         return "EMut [%s]" % "; ".join(str(i) for i in sorted(ev[1]))
+    if k == "ERet":
+        return "ERet [%s]" % "; ".join(str(i) for i in sorted(ev[1]))
     if k == "EStore":
         return "EStore [%s]" % "; ".join(str(i) for i in sorted(ev[1]))
     if k == "EWith":
@@ -1341,8 +1351,28 @@ def ev_term(ev):
     raise TranslationError("bad event %r" % (ev,))
 
 
+ALLOWED_DECORATORS = {"classmethod", "staticmethod", "property"}
+
+
+def check_decorators(rel, fn):
+    """fail closed on every decorator that could change what a call does or returns (memoisation, wrappers, ...)"""
+    for dco in fn.decorator_list:
+        dd = T.dotted(dco)
+        if dd in ALLOWED_DECORATORS or (dd is not None and dd.endswith(".setter") and dd.count(".") == 1):
+            continue
+        T.fail(rel, dco, "decorator %s on %s is outside the recognised subset (only classmethod / staticmethod / property / "
+                         "<name>.setter are understood)" % (dd or ast.dump(dco)[:40], fn.name))
+
+
 def collect_functions(rel, tree):
     """[(qualname, FunctionDef, classname|None)] for every def in the file (methods, property setters)"""
+    for n in ast.walk(tree):
+        if isinstance(n, ast.FunctionDef):
+            check_decorators(rel, n)
+        elif isinstance(n, ast.ClassDef) and n.decorator_list:
+            T.fail(rel, n, "class decorator on %s is outside the recognised subset" % n.name)
+        elif isinstance(n, (ast.AsyncFunctionDef, ast.Global, ast.Nonlocal)):
+            T.fail(rel, n, "statement kind outside the recognised subset")
     out = []
     for n in tree.body:
         if isinstance(n, ast.FunctionDef):
